@@ -40,6 +40,9 @@ var pinned = []*node{
 	{Op: "normalize", F: 0, Kids: []*node{{Op: "lit", Units: []uint16{0xe9, 0xd800, 'e', 0x301}}}},
 	// a builder that was switched to UTF-16 storage and then only receives ASCII must come out as an ASCII string
 	{Op: "builder", Kids: []*node{{Op: "utf16", Units: []uint16{'a', 0xe9}}, {Op: "lit", Units: []uint16{'z'}}}, Prog: []bstep{{Op: "likely", N: 2}, {Op: "wsub", K: 0, A: 0, B: 1}, {Op: "ws", K: 1}}},
+	// "é".replaceAll("", "x") never returned (the match-collecting loop ran past the end of a UTF-16 stored subject)
+	{Op: "replaceAll", Kids: []*node{{Op: "lit", Units: []uint16{0xe9}}, {Op: "lit", Units: []uint16{}}, {Op: "lit", Units: []uint16{'x'}}}},
+	{Op: "replaceFn", F: 1, Kids: []*node{{Op: "utf16", Units: []uint16{'a', 0x4e2d, 'b'}}, {Op: "lit", Units: []uint16{}}, {Op: "lit", Units: []uint16{'$', '&'}}}},
 }
 
 func Check() *core.Check {
@@ -58,9 +61,9 @@ func Check() *core.Check {
 		},
 		Cases: func(tier string) int {
 			if tier == "thorough" {
-				return 400000
+				return 110000
 			}
-			return 14000
+			return 5000
 		},
 		MinConclusive: func(tier string) int { return 1000 },
 		NumPinned:     len(pinned),
@@ -82,14 +85,14 @@ func forEachNode(root **node, f func(slot **node)) {
 }
 
 // minimise shrinks a failing tree: subtree isolation, operands replaced by plain leaves, leaf content shortened.
-func minimise(root *node, salt uint64, v *violation, budget int) *node {
+func minimise(root *node, salt uint64, v *violation, budget int, noExclude bool) *node {
 	scratch := core.NewStats()
 	still := func(t *node) bool {
 		if budget <= 0 {
 			return false
 		}
 		budget--
-		o := execute(t.clone(), scratch, salt)
+		o := execute(t.clone(), scratch, salt, noExclude)
 		return o.viol != nil && o.viol.monitor == v.monitor && o.viol.item == v.item
 	}
 	cur := root.clone()
@@ -164,9 +167,12 @@ func run(c *core.Ctx) core.Result {
 	}
 	st := c.Stats
 	key := tree.render()
+	if c.Replay {
+		fmt.Println("tree:", key)
+	}
 	st.Count("tree_nodes", int64(tree.count()))
 	st.Max("max_tree_nodes", int64(tree.count()))
-	out := execute(tree.clone(), st, salt)
+	out := execute(tree.clone(), st, salt, c.Index < 0)
 	st.Count("pairs_in_battery", int64(out.pairs))
 	if out.pruned {
 		st.Inc("pruned_by_size_cap")
@@ -182,8 +188,8 @@ func run(c *core.Ctx) core.Result {
 	min := tree
 	if c.Index >= 0 && minimisedInThisWorker < 40 {
 		minimisedInThisWorker++
-		m := minimise(tree, salt, v, 200)
-		if o2 := execute(m.clone(), core.NewStats(), salt); o2.viol != nil && o2.viol.monitor == v.monitor && o2.viol.item == v.item {
+		m := minimise(tree, salt, v, 200, false)
+		if o2 := execute(m.clone(), core.NewStats(), salt, false); o2.viol != nil && o2.viol.monitor == v.monitor && o2.viol.item == v.item {
 			min, v = m, o2.viol
 		}
 	}
